@@ -120,9 +120,22 @@ def run(facts, cg):
             for bi in b.live:
                 for st in b.blocks[bi]['stmts']:
                     if st['k'] == 'assign' and not st['pl']['p'] and st['pl']['l'] in to_ret and st['rv']['k'] == 'use' \
-                            and st['rv']['op']['k'] in ('copy', 'move') and not st['rv']['op']['pl']['p'] and st['rv']['op']['pl']['l'] not in to_ret:
+                            and st['rv']['op']['k'] in ('copy', 'move') and st['rv']['op']['pl']['l'] not in to_ret and \
+                            all(p_['k'] in ('downcast', 'field') for p_ in st['rv']['op']['pl']['p']):
+                        # (also the payload of a wrapper: the result of an awaited helper arrives as `(ready as Ready).0`)
                         to_ret.add(st['rv']['op']['pl']['l'])
                         grew = True
+                    if st['k'] == 'assign' and not st['pl']['p'] and st['pl']['l'] in to_ret and st['rv']['k'] == 'agg' and \
+                            st['rv'].get('vname') in ('Ready', 'Continue', 'Break') and len(st['rv']['ops']) == 1 and st['rv']['ops'][0]['k'] in ('copy', 'move') \
+                            and not st['rv']['ops'][0]['pl']['p'] and st['rv']['ops'][0]['pl']['l'] not in to_ret:
+                        to_ret.add(st['rv']['ops'][0]['pl']['l'])
+                        grew = True
+                t_ = b.blocks[bi]['term']
+                if t_['k'] == 'call' and 'q' in t_['callee'] and not t_['dest']['p'] and t_['dest']['l'] in to_ret and t_['args'] and \
+                        t_['callee']['q'].split('::')[-1] in ('from_output', 'into', 'from') and t_['args'][0]['k'] in ('copy', 'move') \
+                        and not t_['args'][0]['pl']['p'] and t_['args'][0]['pl']['l'] not in to_ret:
+                    to_ret.add(t_['args'][0]['pl']['l'])
+                    grew = True
         for bi in b.live:
             for st in b.blocks[bi]['stmts']:
                 if st['k'] == 'assign' and not st['pl']['p'] and st['pl']['l'] in to_ret and st['rv']['k'] == 'agg' and st['rv'].get('vname') == 'Ok':
@@ -166,7 +179,11 @@ def run(facts, cg):
             continue
         dom = b.dominators().get(bi, set())
         ok = None
-        for dbi in dom:
+        # candidate stores (a field decremented) and candidate tests (that field against zero / the None of checked_sub) are looked
+        # up first, dominance - path-sensitive: the store may sit in the `Some` arm of a helper that reports "there was one left" -
+        # is asked for those blocks only
+        cand_stores, cand_tests = [], []
+        for dbi in b.live:
             for st in b.blocks[dbi]['stmts']:
                 if st['k'] == 'assign' and st['pl']['p'] and st['pl']['p'][-1]['k'] == 'field':
                     term = simplify(T.resolve_env(simplify(T.of_rvalue(b, st['rv'], 0))))
@@ -175,16 +192,17 @@ def run(facts, cg):
                           (term[0] == 'field' and isinstance(term[1], tuple) and term[1][0] == 'binop' and term[1][1] == 'Sub' and term[1][3] == ('const', 1)) or \
                           has_call(term, '::saturating_sub') or has_call(term, '::checked_sub')
                     if dec and has_field(term, f_):
-                        # compared with zero in a dominating switch
-                        for cbi in dom:
-                            ct = b.blocks[cbi]['term']
-                            if ct['k'] == 'switch':
-                                cterm = simplify(T.resolve_env(simplify(T.of_operand(b, ct['op']))))
-                                if has_field(cterm, f_) and any(n == ('const', 0) for n in walk(cterm)):
-                                    ok = f_
-                                # `match budget.checked_sub(1) { None => give up, Some(left) => .. }` is the same test
-                                if has_field(cterm, f_) and has_call(cterm, '::checked_sub') and any(n[0] == 'discr' for n in walk(cterm)):
-                                    ok = f_
+                        cand_stores.append((dbi, f_))
+            ct = b.blocks[dbi]['term']
+            if ct['k'] == 'switch':
+                cterm = simplify(T.resolve_env(simplify(T.of_operand(b, ct['op']))))
+                for f_ in {x[1] for x in cand_stores} | set(facts.fields_by_role('bitar::archive_reader::http_range_request::HttpRangeRequest').get('u32') or []):
+                    if has_field(cterm, f_) and (any(n == ('const', 0) for n in walk(cterm)) or
+                                                 (has_call(cterm, '::checked_sub') and any(n[0] == 'discr' for n in walk(cterm)))):
+                        cand_tests.append((dbi, f_))
+        for sbi, f_ in cand_stores:
+            if sbi in dom and any(cbi in dom and f2 == f_ for cbi, f2 in cand_tests):
+                ok = f_
         instances.append({'rule': 'R-RETRY', 'function': b.q, 'rearm_at': t['loc'], 'budget_field': ok})
         if not ok:
             finding('R-RETRY', b.q, 'unbounded', 'the request is re-armed at %s without consuming a retry budget that is compared with zero' % t['loc'])
@@ -396,20 +414,30 @@ def run(facts, cg):
                         continue            # not a "no request" value
                     n_drop += 1
                     guarded = False
+                    zero_edges = set()
                     for cbi in b.live:
                         sw = b.blocks[cbi]['term']
-                        if sw['k'] == 'switch' and cbi in dom.get(bi, ()):
-                            ct = simplify(T.of_operand(b, sw['op']))
-                            if isinstance(ct, tuple) and ct[0] == 'binop' and ct[1] in ('Eq', 'Ne', 'Le', 'Lt', 'Gt', 'Ge') and \
-                                    any(has_field(ct, f_) for f_ in usz) and any(n_ == ('const', 0) or n_ == ('const', 1) for n_ in walk(ct)):
-                                # the drop sits behind the "counter is zero" edge of this test on every path: with that edge taken
-                                # away it cannot be reached (a test that is only the first half of `a == 0 || other` does not do)
-                                zero_true = _zero_when_true(ct)
-                                t_edge = sw['otherwise']
-                                f_edge = dict(zip(sw['vals'], sw['targets'])).get(0)
-                                cands = [t_edge] if zero_true is True else [f_edge] if zero_true is False else [t_edge, f_edge]
-                                if any(tg is not None and not _reachable_without_edge(b, (cbi, tg), bi) for tg in cands):
-                                    guarded = True
+                        if sw['k'] != 'switch':
+                            continue
+                        ct = simplify(T.of_operand(b, sw['op']))
+                        if isinstance(ct, tuple) and ct[0] == 'binop' and ct[1] in ('Eq', 'Ne', 'Le', 'Lt', 'Gt', 'Ge') and \
+                                any(has_field(ct, f_) for f_ in usz) and any(n_ == ('const', 0) or n_ == ('const', 1) for n_ in walk(ct)):
+                            # the drop sits behind the "counter is zero" edge of this test on every path: with that edge taken
+                            # away it cannot be reached (a test that is only the first half of `a == 0 || other` does not do)
+                            zero_true = _zero_when_true(ct)
+                            t_edge = sw['otherwise']
+                            f_edge = dict(zip(sw['vals'], sw['targets'])).get(0)
+                            cands = [t_edge] if zero_true is True else [f_edge] if zero_true is False else [t_edge, f_edge]
+                            if any(tg is not None and not _reachable_without_edge(b, (cbi, tg), bi) for tg in cands):
+                                guarded = True
+                            if zero_true is not None and cands[0] is not None:
+                                zero_edges.add((cbi, cands[0]))
+                        elif isinstance(ct, tuple) and ct[0] == 'discr' and has_call(ct, '::checked_sub') and any(has_field(ct, f_) for f_ in usz) and \
+                                (0 in sw['vals'] or sw['vals'] == [1]):
+                            # `match counter.checked_sub(1) { None => .. }`: the None edge is a "counter is zero" edge too
+                            zero_edges.add((cbi, sw['targets'][sw['vals'].index(0)] if 0 in sw['vals'] else sw['otherwise']))
+                    if not guarded and zero_edges and not _reachable_without_edges(b, zero_edges, bi):
+                        guarded = True      # behind the union of several such edges (`Some(left) if left > 0 => .., _ => drop`)
                     instances.append({'rule': 'R-RUNS(one-request-per-run)', 'function': b.q, 'request_field': holder, 'dropped_at': st['loc'], 'guarded_by_run_counter': guarded})
                     if not guarded:
                         finding('R-RUNS', b.q, 'request-dropped-early', 'the range request in flight is given up at %s without the count of chunks it still covers having '
@@ -432,18 +460,25 @@ def _zero_when_true(ct):
 
 
 def _reachable_without_edge(b, edge, target):
-    fe = b.feasible_edges()
-    seen, w = {0}, [0]
-    while w:
-        x = w.pop()
-        if x == target:
-            return True
-        for s_ in succs(b.blocks[x]['term']):
-            if (x, s_) == edge or s_ in seen or b.blocks[s_].get('cleanup') or (fe is not None and (x, s_) not in fe):
-                continue
-            seen.add(s_)
-            w.append(s_)
-    return target in seen
+    return _reachable_without_edges(b, {edge}, target)
+
+
+def _reachable_without_edges(b, edges, target):
+    """can `target` be reached from the entry when none of the given CFG edges may be taken?  Path-sensitive (the explorer's
+    constant environment prunes the branch on a flag a helper just returned)."""
+    class Avoid(Rule):
+        init = 0
+
+        def on_term(self_, b_, bi, t, state):
+            if any((bi, s2) in edges for s2 in succs(t)):
+                return [(s2, state) for s2 in set(succs(t)) if (bi, s2) not in edges]
+            return state
+    ex = Explorer(b, Avoid())
+    try:
+        IN = ex.run()
+    except RuntimeError:
+        return True
+    return bool(IN.get(target))
 
 
 def _rv_ops(rv):
